@@ -2,7 +2,7 @@
 from .. import AnalysisBroken
 from ..eff import check_pure_params
 from ..libmodels import LIB_FACTS
-from ..rules import Equiv, canon_binders, canon_params, check_equiv, close_loops, compare_function, std_rewrites, where_of
+from ..rules import Equiv, canon_binders, canon_params, check_equiv, close_loops, compare_function, inline_new_helpers, lift_ite, std_rewrites, where_of
 from ..terms import NONE, const, head, is_const, show, strip, strip_all, subst, walk
 
 CLAIMED = True
@@ -110,6 +110,15 @@ def vec_cond(t):
     return head(t) == "param" and t[1] == "#3"
 
 
+def tuple_likes(t):
+    """pandas MultiIndex.from_tuples accepts any sequence of tuple-likes: a list of [a, b] lists labels the rows like a list of (a, b) tuples."""
+    if head(t) == "call" and strip(t[1]) == ("glob", "pandas.MultiIndex.from_tuples") and t[2]:
+        a = strip(t[2][0])
+        if head(a) == "comp" and head(strip(a[2])) == "list":
+            return ("call", t[1], (("comp", a[1], ("tuple", strip(a[2])[1]), a[3], a[4]),) + tuple(t[2][1:]), t[3])
+    return t
+
+
 def run(r):
     rep = r.rep
     rep.explanation = "The six functions were reduced to decision tables with rational-function / loop-closed leaves and compared with the specification; the rank of every squareform argument was inferred."
@@ -117,7 +126,7 @@ def run(r):
     # purity first: cheap, robust, and a recorded violation takes precedence over a later 'cannot decide'
     check_pure_params(r, "C13-PURE", ["pyrepseq.entropy.renyi2_entropy", "pyrepseq.entropy.stdrenyi2_entropy", S + "pc_conditional", S + "pc_grouped_cross", "pyrepseq.distance.pcDelta_grouped", "pyrepseq.distance.pcDelta_grouped_cross"])
     rep.floor("C13-PURE", 18)
-    rw = std_rewrites() + [canon_binders]
+    rw = std_rewrites() + [canon_binders, tuple_likes]
     compare_function(r, "C13-ENT", "pyrepseq.entropy.renyi2_entropy", SPEC, "renyi2_entropy == -log_base of pc / pc_joint / pc_conditional chosen by the documented table; non-positive base raises first",
                      eq=Equiv(rewrites=rw), key="entropy")
     compare_function(r, "C13-ENT", "pyrepseq.entropy.stdrenyi2_entropy", SPEC, "stdrenyi2_entropy == stdpc / pc / ln(base) (joint forms for a list of features)", eq=Equiv(rewrites=rw), key="std entropy")
@@ -136,8 +145,11 @@ def run(r):
         s = r.A.summary(q)
         for e in s.calls("scipy.spatial.distance.squareform"):
             n += 1
-            arg = close_loops(s, strip(e["term"])[2][0])
+            arg = lift_ite(inline_new_helpers(r, close_loops(s, strip(e["term"])[2][0])))
             rk, why = rank_of(r, s, arg)
+            if rk is None:
+                rep.require(False, f"C13-SHP: {q}: {why}; cannot decide")
+                continue
             rep.ob("C13-SHP", q, rk == 1, "squareform receives a rank-1 vector with one entry per pair of groups for every admissible keyword configuration", where_of(r.P, s.func, e.node),
                    expected="rank 1 (one scalar per pair)", found=f"rank {rk}: {why}", key="squareform-rank2" if rk != 1 else "squareform rank")
     rep.require(n >= 2, f"C13-SHP: {n} squareform call sites, floor is 2")
@@ -159,6 +171,8 @@ def rank_of(r, s, t):
         ranks = [rank_of(r, s, e[3][0]) for e in elems]
         rk = max((x[0] for x in ranks if x[0] is not None), default=None)
         return rk, "; ".join(x[1] for x in ranks)
+    if head(t) == "comp" and t[1] in ("list", "gen"):
+        return rank_of(r, s, t[2])
     if head(t) == "ite":
         a, b = rank_of(r, s, t[2]), rank_of(r, s, t[3])
         if a[0] is None or b[0] is None:
